@@ -4,7 +4,7 @@ import common, zoo as zoolib, filelevel, workloads, iocommon
 from common import Pair, proof_stage, rebuild_tools, build_pqh, build_zoo, Lock, TRUSTED_BASE
 
 MODULE = "PQ.Props.C09"
-THEOREMS = ["PQ.C09." + t for t in ("checked_fault_reported", "dropped_fault_swallowed", "sink_sites_propagate", "sink_calls_propagate", "failing_call")]
+THEOREMS = ["PQ.C09." + t for t in ("checked_fault_reported", "dropped_fault_swallowed", "sink_sites_propagate", "sink_calls_propagate", "failing_call", "sink_inventory_covers")]
 
 
 def counts(calls):
@@ -31,15 +31,29 @@ def run(chk):
         for mx in (1, 2):
             for codec in (0, 1, 2):
                 extra.append(filelevel.Case(z, mx, codec, [("a", g.record(z.nodes)) if x == "a" else (x,) for x in shape], "history"))
+    # pages well beyond 4 KiB / 64 KiB (sinks that coalesce or split writes by size)
+    for name, n in (("three", 700), ("flat", 90)):
+        zz = zs.get(name)
+        if zz is not None:
+            gg = zoolib.Gen(chk.rng, mode="mixed", p_nil=0.1)
+            rs = [gg.record(zz.nodes) for _ in range(n)]
+            for codec in (0, 1, 2):
+                extra.append(filelevel.Case(zz, 100000, codec, [("a", r) for r in rs] + [("w",), ("c",)], "large-page"))
+                extra.append(filelevel.Case(zz, n // 3 + 1, codec, [("a", r) for r in rs] + [("w",), ("c",)], "large-page"))
     filelevel.run_cases(pair, extra, want_parse=False, want_read=False)
     cases += extra
     ops, meta = [], []
     tie_breaks, prop_fail = [], []
     for c in cases:
         if c.impl_calls != c.model_calls:
-            tie_breaks.append({"case": c.key()[:400], "what": "sink writes per API call", "impl": c.impl_calls, "model": c.model_calls})
-            continue
-        cnt = counts(c.model_calls)
+            tie_breaks.append({"case": c.key()[:400], "what": "sink writes per API call", "impl": c.impl_calls[-200:], "model": c.model_calls[-200:]})
+            if "err" in c.impl_calls or "panic" in c.impl_calls:
+                continue
+            # the segmentation differs from the model's: the property is still decided on the implementation,
+            # predicting the failing API call from the implementation's own fault-free run
+            cnt = counts(c.impl_calls)
+        else:
+            cnt = counts(c.model_calls)
         total = sum(cnt)
         for k in range(1, total + 1):
             ops.append("zoo-write %s %d %d %s %d" % (c.zoo.name, c.max, c.codec, c.go_ops, k)); meta.append((c, k, cnt))
